@@ -164,7 +164,7 @@ func c12Run(in []string) (obs []string) {
 		}
 		out = append(out, "DEC")
 		out = append(out, c12Obs(vs2, probes)...)
-		out = append(out, "SAME", vu.B(bytes.Equal(raw, raw2)))
+		out = append(out, "SAME", vu.B(bytes.Equal(raw, raw2)), "RAW", vu.Hex(raw))
 		vu.Stat("R_" + head[1])
 		return out
 	case "D":
@@ -182,7 +182,7 @@ func c12Run(in []string) (obs []string) {
 			return []string{"ERR", "dec"}
 		}
 		vu.Stat("D")
-		return c12Obs(vs, probes)
+		return append(c12Obs(vs, probes), "RAW", vu.Hex(raw))
 	case "G":
 		b := pos.NewBigBuilder()
 		toks := head[1:]
@@ -352,6 +352,12 @@ func init() {
 					mode := "plain"
 					if r.Intn(3) == 0 {
 						mode = "epoch"
+					}
+					if r.Intn(12) == 0 { // a large set: RLP payload above 255 bytes (2-byte length)
+						pairs = nil
+						for k, m := 0, 30+r.Intn(60); k < m; k++ {
+							pairs = append(pairs, vu.U64(uint64(r.Uint32())), vu.U64(uint64(1+r.Intn(20000000))))
+						}
 					}
 					c12Emit(emit, []string{"R", mode}, pairs)
 				case 3:
